@@ -1,5 +1,4 @@
 import NsyncVerif.Props.C03Transfer
-import NsyncVerif.Proofs.TieTransfer
 /-
   Audit of the cv-signal edge of C03 for TRANSFERRED waiters (composition CvFix × MuX × vector
   clocks): only `propext`, `Classical.choice`, `Quot.sound` may appear.
@@ -26,5 +25,5 @@ open NsyncVerif NsyncVerif.CvMu
 #print axioms mux_sp
 #print axioms jrun_cv
 #print axioms jrun_mu
-#print axioms NsyncVerif.Tie.transfer_sites_tie
-#print axioms NsyncVerif.Tie.mu_word_stores_tie
+-- (the tie lemmas `Tie.transfer_sites_tie`, `Tie.mu_word_stores_tie` import the regenerated tables and are built
+--  separately by the check, so that a changed source breaks the tie and not the whole library)
